@@ -45,7 +45,7 @@ func (m *Model) CreateBooking(booking *traits.Booking) (*traits.Booking, error) 
 }
 
 func (m *Model) UpdateBooking(booking *traits.Booking, opts ...resource.WriteOption) (*traits.Booking, error) {
-	if booking.Id == "" {
+	if booking.GetId() == "" { // (getter: a request may leave the booking out altogether)
 		return nil, status.Errorf(codes.InvalidArgument, "missing booking.id")
 	}
 
